@@ -36,7 +36,7 @@ CHECKER = 'lake build KatdalModel.Props.C10 kd_c10 && lake env lean <#print axio
 
 # ------------------------------------------------------------------ value alphabets (8 codes each)
 
-WRAPPED = ('tuple', 'arr', 'arrs', 'list', 'wstr')
+WRAPPED = ('tuple', 'arr', 'arrs', 'arrd', 'list', 'wstr')
 _STR = ['slew', 'track', 'stop', 'scan', 'A', 'B', 'nd_on', '']
 ALPHA = {
     'str': list(_STR),
@@ -47,6 +47,9 @@ ALPHA = {
     # arrays of DIFFERENT shapes, several of which are equal after broadcasting (but are different values)
     'arrs': [np.ones(1), np.ones(4), np.ones((2, 2)), np.ones(2), np.zeros(1), np.zeros(3), np.array([1, 2]),
              np.array([[1, 2], [1, 2]])],
+    # the 'arr' values again, but successive samples alternate between an integer and a float array holding the
+    # same numbers (equal values that are not bit-identical, see py_inputs)
+    'arrd': [np.array([i, 2 * i + 1]) for i in range(8)],
     'list': [[i, 'x%d' % i] for i in range(8)],
     'wstr': ['w' + s for s in _STR],
 }
@@ -132,7 +135,7 @@ def gen_case(rng, stream='s2c'):
     elif mode < 0.28:                                # nothing inside
         ts = [t for t in ts if t <= lo or t > ends[-1]]
     ts.sort()
-    alpha = rng.choice(['str', 'str', 'str', 'int', 'bool', 'tuple', 'arr', 'arrs', 'list', 'wstr'])
+    alpha = rng.choice(['str', 'str', 'str', 'int', 'bool', 'tuple', 'arr', 'arrs', 'arrd', 'list', 'wstr'])
     ncodes = len(ALPHA[alpha])
     k = min(ncodes, rng.randint(2, 4))
     codes = rng.sample(range(ncodes), k)
@@ -210,6 +213,8 @@ def py_inputs(case):
     mids = np.array([t0 + (e - h) * u for e in case['ends']])
     period = 2 * h * u
     vals = [objs[c] for c in case['vals']]
+    if alpha == 'arrd':
+        vals = [v.astype(float) if i % 2 else v for i, v in enumerate(vals)]
     if wrapped:
         vals = [ComparableArrayWrapper(v) for v in vals]
     tr = None
@@ -327,7 +332,9 @@ def judge(ctx, case, mreply, sreply, impl):
         return f'event boundaries {ev} are not strictly increasing'
     if len(idx) != len(ev) - 1 or any(not (0 <= i < len(uniq)) for i in idx):
         return f'indices {idx} do not match events {ev} / unique values {uniq}'
-    if len(set(uniq)) != len(uniq):
+    if len(set(uniq)) != len(uniq) and case['alpha'] != 'arrd':
+        # (not a clause of C10: for equal-but-not-bit-identical arrays katdal keeps both objects as unique values;
+        # what C10 states - one value per dump, no repeated consecutive values - is checked below for them too)
         return f'unique values are not distinct: {uniq}'
     got = per_dump(uniq, idx, ev)
     if got != want:
@@ -526,7 +533,7 @@ def m_empty_sensor_arraylike_initial(case, what):
 def m_ndarray_greedy(case, what):
     """known finding (c): greedy_values holding ndarrays -> ValueError (ambiguous truth value) as soon as one
     sensor value is tested for membership"""
-    return case.get('alpha') in ('arr', 'arrs') and bool(case['greedy']) and 'raised ValueError' in what
+    return case.get('alpha') in ('arr', 'arrs', 'arrd') and bool(case['greedy']) and 'raised ValueError' in what
 
 
 MATCHERS = {'c10_empty_sensor_arraylike_initial_value': m_empty_sensor_arraylike_initial,
